@@ -314,7 +314,12 @@ def c04_case(draw):
         n = draw(st.integers(0, 7))
         b = draw(st.lists(st.sampled_from(ALL_CARDS + ['??']),
                           min_size=n, max_size=n, unique=True))
-    return dict(cls=cname, a=a, b=b)
+    # how the card set is handed over (all documented CardsLike forms mean
+    # the same cards: text, text with separators, Card objects in a tuple or
+    # list, a one-shot iterator, the generator Card.parse returns)
+    form = draw(st.sampled_from(['str', 'str', 'spaced', 'tuple', 'list',
+                                 'iter', 'gen', 'set']))
+    return dict(cls=cname, a=a, b=b, form=form)
 
 
 def budget(tier):
@@ -327,9 +332,32 @@ def strategy(tier):
     return c04_case()
 
 
-def _build(cls, cards):
+def as_form(cards, form):
+    """The same cards in one of the documented CardsLike spellings."""
+    from pokerkit import Card
+    text = ''.join(cards)
+    if form in (None, 'str'):
+        return text
+    if form == 'spaced':
+        return ', '.join(cards)
+    objs = tuple(Card.parse(text))
+    if form == 'tuple':
+        return objs
+    if form == 'list':
+        return list(objs)
+    if form == 'iter':
+        return iter(objs)
+    if form == 'gen':
+        return Card.parse(text)
+    if form == 'set':
+        # an unordered collection (only for distinct cards)
+        return frozenset(objs) if len(set(objs)) == len(objs) else objs
+    raise ValueError(form)
+
+
+def _build(cls, cards, form=None):
     try:
-        return cls(''.join(cards))
+        return cls(as_form(cards, form))
     except Exception as e:  # noqa: BLE001
         return e
 
@@ -341,11 +369,15 @@ def check(case, stats):
     hands = []
     for cards in (case['a'], case['b']):
         ref = refeval.key(cname, [(c[0], c[1]) for c in cards])
-        h = _build(cls, cards)
+        form = case.get('form')
+        if '??' in cards and form == 'set':
+            form = 'tuple'
+        h = _build(cls, cards, form)
         accepted = not isinstance(h, Exception)
         if accepted != (ref is not None):
-            out.append(V(ID, 'validity', cname,
-                         f'{cname}({"".join(cards)!r}): engine'
+            out.append(V(ID, 'validity', f'{cname}:{form or "str"}',
+                         f'{cname}({"".join(cards)!r} as {form or "str"}):'
+                         ' engine'
                          f' {"accepted" if accepted else "rejected " + repr(h)}'
                          f', rules say {"valid" if ref is not None else "not a hand"}'))
         if not accepted:
@@ -386,6 +418,7 @@ def check(case, stats):
             else:
                 stats.count('class:same_category_shallow')
     stats.count('cls:' + cname)
+    stats.count('form:' + str(case.get('form') or 'str'))
     if nontrivial:
         stats.count('nontrivial')
         stats.mark_nontrivial((cname, tuple(sorted(ca)), tuple(sorted(cb))))
